@@ -9,6 +9,9 @@ CHECKS = {
  "C04": ("model_checking", "TLC checks the retention invariants and leave/flag action properties on spec/StoreMC.tla exhaustively and exports its complete transition relation; every (state, event) pair is replayed on the real EventCache from a really reached state, and seeded random histories are validated step by step against spec/StoreTrace.tla.", "Trusted: TLC, concretiser. Exhaustive only inside the 26-event universe and capacities 1..3 (4 thorough); random histories beyond.", "TLA+ spec + TLC exhaustive model checking, graph-guided replay of the exported relation, trace validation"),
  "C05": ("model_checking", "Same Store specification; deletion / isolation action properties checked by TLC, the exported relation replayed through CacheHandler messages, deletion-heavy two- and three-author histories validated against StoreTrace.", "Trusted: TLC, concretiser. Address references only to addressable events, no self-referencing deletion requests.", "TLA+ spec + TLC exhaustive model checking, graph-guided replay through the handler, trace validation"),
  "C06": ("model_checking", "SqlStore.tla (rows, id/address tombstones) model-checked by TLC (SqlMC); every exported transition replayed on real SQLite and probe queries judged by TLC (AnswerOK); random batch histories validated against SqlTrace with full listings and random filter lists; all seven fields compared.", "64-bit key collisions assumed away; d-less addressable events not generated; TLC, concretiser trusted.", "TLA+ spec + TLC model checking, graph-guided replay on real SQLite, trace validation"),
+ "C07": ("model_checking", "RouterObs.tla states the real-time delivery rule (must / may / must-not by the order of EOSE, EVENT, OK, CLOSE as seen by the clients) as a monitor over observation histories; the mechanism model RouterMC (sessions, non-atomic Publish visiting connections one at a time, bounded queues, forwarder, stalled reader, End) is explored by TLC against the monitor; seeded concurrent runs of the real RouterHandler (3-5 connections, re-REQ, CLOSE, cancel, 1-2 slot buffers with a subscriber that stops reading) are recorded in one total order and validated by TLC prefix by prefix; publishers must be acknowledged within 2 s.", "Observations are ordered by one mutex-protected log (snd before offering, got after receiving); ended/stalled connections exempt from completeness; no-loss scenarios use buflen 1024.", "TLA+ monitor + mechanism model checked by TLC (simulation), trace validation of concurrent real executions"),
+ "C08": ("model_checking", "MergeObs.tla is the property as a monitor over client/child observations; the code-shaped mechanism model MergeMC (state-then-broadcast, per-child hand-off, EOSE gate, IsSendable, reply-slot queues) is explored by TLC against it; seeded free-running scenarios of the real NewMergeHandler over 2-4 scripted children are recorded in one total order and validated by TLC prefix by prefix (StepOK) and at the drained end (QuiesceOK).", "Events between a child's EOSE and the merged EOSE may be dropped; races of CLOSE / re-REQ with in-flight deliveries are left open as the property does.", "TLA+ monitor + mechanism model checked by TLC (simulation), trace validation of concurrent real executions"),
+ "C09": ("model_checking", "Same MergeObs / MergeMC / MergeTrace machinery, scenarios with pipelined EVENTs over few ids (repeats in flight) and COUNTs, children answering with random verdicts, reasons and counts: k-th OK follows k-th submission and all children's k-th verdicts, accepted iff all, rejected text starts with the lowest-index rejecting child's reason, COUNT = max, one reply per request at quiescence.", "Premise: each child answers each EVENT/COUNT exactly once in request order.", "TLA+ monitor + mechanism model checked by TLC (simulation), trace validation of concurrent real executions"),
  "C10": ("exploration", "Structured inputs are enumerated by TLC from Wire.tla (all client message shapes, single-point corruptions, server value classes); each text, byte-level mutations of it, generator-built values and hostile shapes are decoded as all 14 types and by ParseClientMsg under recover: no panic, success => filled, decode-encode-decode stable, values round-trip.", "'all byte strings' is sampled inside model-defined classes: model-based generation, not coverage-guided fuzzing; bare null not claimed.", "TLA+ grammar model as exhaustive case generator (TLC), replay on the real codec"),
  "C11": ("model_checking", "Wire.tla assigns every syntactic position of the 5 client message types a status ok/bad/open; TLC enumerates baselines, ok variants, whitespace placements and every single-point corruption (thorough: pairs) with the verdict; each case is rendered as JSON and judged by ParseClientMsg + ValidClientMsg; accepted messages are additionally checked for soundness.", "The rendering of abstract statuses to JSON text is trusted; positions the property does not claim are open.", "TLA+ decision model enumerated exhaustively by TLC, each case replayed on the real gate"),
  "C12": ("model_checking", "Gate.tla (reader/handler/writer processes over unbuffered channels) model-checked incl. liveness for all frame sequences up to 3 over 13 frame classes; every sequence plus long seeded sequences sent over real WebSocket connections to NewRelay(recordingHandler) with really signed events; recorded sessions validated by TLC against GateOK.", "Rate limit configured away; attribution of client frames to handler emissions by deep equality with the logged emission.", "TLA+ process model + TLC (safety and liveness), TLC-generated frame sequences replayed over real sockets, trace validation"),
